@@ -68,6 +68,17 @@ pub(super) fn move_while_borrowed(
 
         let mut directly_borrowed = IndexSet::new();
         let mut captured = IndexSet::new();
+        // Matching on a `Result` doesn't release what the `Result` holds onto: whatever
+        // has been captured by the fallible computation is still captured by its `Ok`/`Err` variants.
+        let forwards_captures = match node {
+            CallGraphNode::MatchBranching => true,
+            CallGraphNode::Compute { .. } => matches!(
+                node.as_hydrated_component(component_db, computation_db)
+                    .map(|c| c.computation()),
+                Some(Computation::MatchResult(_))
+            ),
+            CallGraphNode::InputParameter { .. } => false,
+        };
         if let Some(hydrated_component) = node.as_hydrated_component(component_db, computation_db)
             && let Computation::Callable(callable) = hydrated_component.computation()
         {
@@ -115,6 +126,19 @@ pub(super) fn move_while_borrowed(
 
         'inner: for edge_id in dependency_edge_ids {
             let dependency_index = call_graph.edge_endpoints(edge_id).unwrap().0;
+            if forwards_captures {
+                let forwarded = node2captured_nodes
+                    .get(&dependency_index)
+                    .cloned()
+                    .unwrap_or_default();
+                if !forwarded.is_empty() {
+                    node2captured_nodes
+                        .entry(node_index)
+                        .or_default()
+                        .extend(forwarded);
+                }
+                continue 'inner;
+            }
             let dependency_node = &call_graph[dependency_index];
             let dependency_type = match dependency_node {
                 CallGraphNode::Compute { component_id, .. } => {
